@@ -21,7 +21,7 @@ import (
 	"github.com/tigerwill90/fox"
 )
 
-const rule = "cases = (trie-grown route set incl. deep backtracking, infix catch-alls, hostnames with and without port, many parameters, fan-out above 50, ignore-trailing-slash routes) x requests that the router serves " +
+const rule = "cases = (trie-grown route set incl. deep backtracking, infix catch-alls, hostnames with and without port, 44 spellings of Host incl. IPv6 literals and malformed ones, many parameters, fan-out above 50, ignore-trailing-slash routes) x requests that the router serves " +
 	"(direct or ignored trailing slash); each measured with testing.AllocsPerRun(100) after warm-up, interleaved with the previous request, and again on a router of its own (other registration order, nothing else served, a quarter with a handler using CloneWith+Close) plus Lookup+Close; distinct by (route set, request); non-trivial when the matched pattern has a wildcard or a hostname or the match is slash-adjusted"
 
 type nullW struct{ h http.Header }
@@ -261,6 +261,75 @@ func main() {
 	run.Count("measured_requests", int64(measured))
 	deepHosts(run, w)
 	slashSites(run, w)
+	hostForms(run, w)
+}
+
+// hostForms: one route set mixing static, {param} and overlapping hostnames with path-only routes, x every spelling
+// of the Host header a client may legitimately (or sloppily) send - port, no port, root dot, IPv6 literal with and
+// without port, zone, unbalanced bracket, stray colons - x every path of the set. Every request the router serves is
+// measured, whichever route it ends on (hostname route, hostname reached after backtracking out of a sibling label,
+// path-only route reached after the hostname walk failed).
+func hostForms(run *kit.Run, w *nullW) {
+	f, err := fox.New(fox.WithIgnoreTrailingSlash(true))
+	if err != nil {
+		run.Inconclusive("fox.New: %v", err)
+		return
+	}
+	hit := 0
+	h := func(c fox.Context) { hit++ }
+	routes := []string{
+		"api.example.com/v1/users", "{sub}.example.com/v1/orders", "{sub}.{b}.example.com/v1/deep/{id}", "api.{tenant}.example.com/v1/users", "api.{tenant}.example.com/t/{id}",
+		"{sub}/one/{id}", "example.com/", "example.co/v1/users", "a.b/v1/*{rest}",
+		"/health", "/items/{id}", "/v1/orders", "/v1/users/", "/files/*{path}", "/t/{id}/x",
+	}
+	for _, p := range routes {
+		if _, err := f.Handle("GET", p, h); err != nil {
+			run.Inconclusive("hostForms: %s: %v", p, err)
+			return
+		}
+	}
+	hosts := []string{
+		"", "api.example.com", "api.example.com:8080", "api.example.com.", "api.example.com.:8080", "api.acme.example.com", "api.acme.example.com:443",
+		"x.y.example.com", "zz.example.com", "example.com", "example.co", "example.c", "a.b", "a.b.", "localhost", "localhost:80", "nomatch.org",
+		"[::1]", "[::1]:8080", "[2001:db8::1]", "[2001:db8::1]:443", "[fe80::1%25eth0]", "[fe80::1%25eth0]:80", "::1", "[::1", "::1]", "[::1]x", "[::1]:",
+		"a:b:c", "example.com:", "example.com:80:80", ":8080", ":", "127.0.0.1", "127.0.0.1:80", "api.example.com:http", "API.example.com", "api..example.com",
+		"api.acme.example.com.", "api.acme.example.org", "api.acme.example.comx", "api.example.comx", "a", "a:1",
+	}
+	paths := []string{"/health", "/items/7", "/v1/users", "/v1/users/", "/v1/orders", "/v1/orders/", "/t/9", "/t/9/x", "/v1/deep/3", "/one/1", "/", "/files/a/b/c", "/v1/x/y"}
+	served := 0
+	for _, host := range hosts {
+		for _, path := range paths {
+			req := &http.Request{Method: "GET", Host: host, URL: &url.URL{Path: path}, Header: http.Header{}}
+			hit = 0
+			for i := 0; i < 5; i++ {
+				f.ServeHTTP(w, req)
+			}
+			if hit == 0 {
+				continue
+			}
+			served++
+			allocs := testing.AllocsPerRun(100, func() { f.ServeHTTP(w, req) })
+			id := fmt.Sprintf("host-form|%q|%s", host, path)
+			run.Case(id, true)
+			run.Count("measured_host_forms", 1)
+			if allocs > 0 {
+				run.Violate("allocates-host-form|"+id, fmt.Sprintf("routing GET %s with Host %q, which the router serves, allocates %.2f objects per request\nroutes: %v", path, host, allocs, routes), nil)
+				continue
+			}
+			// the same request through Lookup and Reverse
+			la := testing.AllocsPerRun(50, func() {
+				if rte, cc, _ := f.Lookup(nil, req); rte != nil {
+					cc.Close()
+				}
+			})
+			if la > 0 {
+				run.Violate("allocates-host-form-lookup|"+id, fmt.Sprintf("Lookup+Close of GET %s with Host %q allocates %.2f objects per call\nroutes: %v", path, host, la, routes), nil)
+			}
+		}
+	}
+	if served < len(hosts) {
+		run.Inconclusive("hostForms: only %d requests served", served)
+	}
 }
 
 // deepHosts: hostnames of many labels, every label also reachable through a {param} sibling whose continuation does
